@@ -18,6 +18,7 @@ RULE = ('cmp laws: full pair matrix + all triples over a fixed universe (~190 sc
         'universes of 40 generated nested values; sort: random lists of scalars / equal-length tuples; dictable.sort: random tables x key '
         'columns / key function / explicit value orders.  non-trivial = a universe (counted once per distinct universe), a list containing a NaN '
         'not already last or >=2 type families, a table with >=1 tie among the keys; distinct = canonical hash')
+RULE_ALSO = '; added by the coverage audit and round 8: key columns given as a name next to a list'
 ASSUMPTIONS = ['bools and +-inf take part in the cmp laws only (as the statement says)', 'dict keys are strings', 'dictable.sort model uses the real cmp as comparator (its laws are monitored here)',
                'no timezone-aware datetimes']
 
